@@ -32,6 +32,8 @@ def replay(ob):
     name = ob["name"]
     if "region_negstep_start_below_minus_d" in name:
         return HEAD + f"main({_region_cases()!r})\n"
+    if "tensor_index_dims_lead_the_result" in name:
+        return HEAD + "main([((2, 3, 4), '0, :, k', {'k': [1, 0, 3]}), ((2, 3, 4), '-1, 0:2, k', {'k': [1, 0]}), ((2, 3, 4), 'k, :, 0', {'k': [1, 0]})])\n"
     if "after_tensor_index_on_earlier_axis" in name:
         return HEAD + "main([((2, 3, 4), 'k, 2', {'k': 1}), ((2, 3, 4), 'k, -1', {'k': 0})])\n"
     if "after_squeezed_scalar_axes" in name:
